@@ -165,14 +165,76 @@ theorem finalise_consumes_once (s : Std K) (l : List Nat) (hl : s.live = some l)
     simp only
     omega
 
-/-- **A finalised standard sampler is idempotent.**  Whatever ran before: once `nested_sampling_loop`
-has returned a finalised state, calling it again (with any body, any fuel) returns that very state —
-no iteration is performed (`0` bodies: no likelihood is evaluated), evidence increments, nested samples
-and live points are untouched. -/
-theorem rerun_idempotent (body body' : Std K → Std K) (fuel fuel' k : Nat) (s s' : Std K)
-    (_h : stdRun body fuel s = some (k, s')) (hf : s'.finalised = true) :
-    stdRun body' fuel' s' = some (0, s') := by
+/-- **The finalised short-circuit.**  On a state whose `finalised` flag is set, `nested_sampling_loop`
+(any body, any fuel) executes 0 bodies — no likelihood is evaluated — and hands back the stored state
+itself: nested samples, evidence increments, live set, condition and iteration counter are the stored ones. -/
+theorem finalised_entry_returns_stored (body : Std K → Std K) (fuel : Nat) (s : Std K)
+    (hf : s.finalised = true) :
+    stdRun body fuel s = some (0, s) := by
   simp [stdRun, stdEntryReturn, hf]
+
+/-- **A run that stopped by its tolerance is idempotent.**  If `nested_sampling_loop`, entered unfinished,
+returned after `k` iterations with `condition ≤ tolerance`, then a second call — with any body and any
+fuel — performs 0 iterations and returns exactly the state the first call returned (same nested samples,
+same evidence increments, no live points, same iteration counter). -/
+theorem rerun_idempotent (body body' : Std K → Std K) (hb : StdBodyOk body) (s s' : Std K)
+    (fuel fuel' k : Nat) (hnf : s.finalised = false) (hset : finaliseSetsFlag = true)
+    (h : stdRun body fuel s = some (k, s')) (htol : (iter body k s).condition ≤ s.tolerance) :
+    stdRun body' fuel' s' = some (0, s') :=
+  finalised_entry_returns_stored body' fuel' s'
+    ((finalise_iff body hb s fuel k s' hnf hset h).1.mpr htol)
+
+/-- **…and a run that stopped only by `max_iteration` is not** (behaviour of the code, reported as a known
+finding): if the first call returned with the condition still above the tolerance, the returned state is not
+finalised and a second call, given room for one iteration, performs exactly one more iteration. -/
+theorem rerun_after_cap_iterates (body body' : Std K → Std K) (hb : StdBodyOk body) (hb' : StdBodyOk body')
+    (s s' : Std K) (fuel fuel' k : Nat) (hnf : s.finalised = false) (hset : finaliseSetsFlag = true)
+    (h : stdRun body fuel s = some (k, s')) (hcap : ¬ (iter body k s).condition ≤ s.tolerance)
+    (hfuel : 1 ≤ fuel') :
+    s'.finalised = false ∧ ∃ s'', stdRun body' fuel' s' = some (1, s'') ∧ s''.iteration = s'.iteration + 1 := by
+  obtain ⟨hfin, _, hsame⟩ := finalise_iff body hb s fuel k s' hnf hset h
+  have hs' : s' = iter body k s := hsame hcap
+  have hnf' : s'.finalised = false := by
+    cases hf : s'.finalised with
+    | false => rfl
+    | true => exact absurd (hfin.mp hf) hcap
+  refine ⟨hnf', ?_⟩
+  -- the first loop was left through the cap test
+  have hrun : runLoop stdWhile stdTop stdBot body fuel s 0 = some (k, iter body k s) := by
+    unfold stdRun at h
+    have he : stdEntryReturn s = false := by simpa [stdEntryReturn] using hnf
+    simp only [he, Bool.false_eq_true, if_false] at h
+    split at h
+    · cases h
+    · rename_i k1 s1 hr
+      have hk : k1 = k := by simp at h; exact h.1
+      subst hk
+      obtain ⟨_, hs1, _, _⟩ := (standard_stops_first body hb s fuel k1 s1).mp hr
+      rw [hr, hs1]
+  obtain ⟨_, _, hstop, _⟩ := (standard_stops_first body hb s fuel k _).mp hrun
+  obtain ⟨i1, i2, i3, _⟩ := std_iter_inv hb s k
+  rcases hstop with hc | ⟨_, m, hm, hle⟩
+  · exact absurd hc hcap
+  · have e1 : s'.iteration = s.iteration + k := by rw [hs', i1]
+    have e2 : s'.tolerance = s.tolerance := by rw [hs', i2]
+    have e3 : s'.maxIteration = Cap.fin m := by rw [hs', i3, hm]
+    have e4 : ¬ s'.condition ≤ s'.tolerance := by rw [e2, hs']; exact hcap
+    have hloop : runLoop stdWhile stdTop stdBot body' fuel' s' 0 = some (1, body' s') := by
+      rw [standard_stops_first body' hb']
+      refine ⟨hfuel, rfl, Or.inr ⟨Nat.le_refl _, m, e3, by omega⟩, ?_⟩
+      intro j hj
+      have : j = 0 := by omega
+      subst this
+      rintro (hc | ⟨hc, _⟩)
+      · exact e4 (by simpa [iter] using hc)
+      · omega
+    have he' : stdEntryReturn s' = false := by simpa [stdEntryReturn] using hnf'
+    refine ⟨if stdFinaliseGuard (body' s') then stdFinalise (body' s') else body' s', ?_, ?_⟩
+    · simp [stdRun, he', hloop]
+    · have hit := (hb' s').1
+      split
+      · simp [stdFinalise, hit]
+      · exact hit
 
 end order
 
@@ -198,16 +260,24 @@ def InsBodyOk (body : Ins K → Ins K) : Prop :=
        (body s).stopAny = s.stopAny ∧ (body s).minIteration = s.minIteration ∧
        (body s).maxIteration = s.maxIteration ∧ (body s).finalised = s.finalised
 
-/-- the configured criteria meet their tolerances: `any` / `all` over `criterion_i ≤ tolerance_i` -/
+/-- SPECIFICATION of "the configured criteria meet their tolerances", written by hand and by index, with no
+reference to the generated code: the k-th criterion value is compared with the k-th tolerance, the value on
+the LEFT of `≤`; `any`: some index qualifies, `all`: every index does -/
 def Met (stopAny : Bool) (crit tol : List K) : Prop :=
-  if stopAny then ∃ p ∈ crit.zip tol, p.1 ≤ p.2 else ∀ p ∈ crit.zip tol, p.1 ≤ p.2
+  if stopAny then ∃ i, ∃ (h1 : i < crit.length) (h2 : i < tol.length), crit[i] ≤ tol[i]
+  else ∀ i, ∀ (h1 : i < crit.length) (h2 : i < tol.length), crit[i] ≤ tol[i]
 
-/-- `reached_tolerance` is `any` (resp. `all`) of `criterion ≤ tolerance` over the paired lists -/
+/-- the GENERATED `reached_tolerance` (translated from the source: which of any/all sits in which branch,
+the comparison operator and its direction, the zip order) decides exactly the hand-written specification `Met` -/
 theorem reached_any_all (s : Ins K) : reached s = true ↔ Met s.stopAny s.criterion s.tolerance := by
   unfold reached Met
   cases s.stopAny
-  · simpa using all_zipWith_le s.criterion s.tolerance
-  · simpa using any_zipWith_le s.criterion s.tolerance
+  · simp only [Bool.false_eq_true, if_false]
+    rw [← zip_forall_iff_index (fun a b => a ≤ b)]
+    simpa using all_zipWith_le s.criterion s.tolerance
+  · simp only [if_true]
+    rw [← zip_exists_iff_index (fun a b => a ≤ b)]
+    simpa using any_zipWith_le s.criterion s.tolerance
 
 /-- the stopping rule of the importance sampler after `j` iterations -/
 def InsStop (body : Ins K → Ins K) (s : Ins K) (j : Nat) : Prop :=
@@ -266,6 +336,14 @@ theorem ins_stops_first (body : Ins K → Ins K) (hb : InsBodyOk body) (s : Ins 
     have := hmin i hi
     rw [← ins_stopAt_iff hb s i] at this
     simpa using this
+
+/-- the importance loop does leave: if its rule is met at some index within the fuel, the loop returns -/
+theorem ins_terminates (body : Ins K → Ins K) (hb : InsBodyOk body) (s : Ins K) (fuel : Nat)
+    (h : ∃ j, j ≤ fuel ∧ InsStop body s j) :
+    ∃ k s', runLoop insWhile insTop insBot body fuel s 0 = some (k, s') := by
+  apply runLoop_isSome
+  obtain ⟨j, hj, hs⟩ := h
+  exact ⟨j, hj, (ins_stopAt_iff hb s j).mpr hs⟩
 
 /-- with the defaults of `configure_iterations` (no minimum, no cap) the rule is the criteria alone:
 `min_iteration = -1` never delays a non-negative iteration counter and `max_iteration = ∞` never fires -/
@@ -427,16 +505,21 @@ theorem ess_def (ws : List K) (hs : sumK ws ≠ 0) : essCode ws = essKish ws := 
   rw [this, sumK_sq_scaled]
   field_simp
 
-/-- the evidence is the mean weight and the squared standard error `u²` of `compute_uncertainty` is the
-unbiased sample variance of the weights divided by `n`: `(Σw² − (Σw)²/n) / (n (n−1))` -/
-theorem Z_err_def (ws : List K) (hne : ws ≠ []) :
+/-- for at least two samples (with one sample the code divides by `n − 1 = 0` and reports NaN, which is
+outside the model) the squared standard error `u²` of `compute_uncertainty` is the unbiased sample variance
+of the weights divided by `n`: `(Σw² − (Σw)²/n) / (n (n−1))`, and the compared relative error is `u² / Ẑ²` -/
+theorem Z_err_def (ws : List K) (h2 : 2 ≤ ws.length) :
     errSq ws = (sumK (ws.map fun w => w * w) - sumK ws * sumK ws / (ws.length : K)) /
         ((ws.length : K) * ((ws.length : K) - 1)) ∧
+    (ws.length : K) * ((ws.length : K) - 1) ≠ 0 ∧
     relErrSq ws = errSq ws / (evidence ws * evidence ws) := by
   have hn : (ws.length : K) ≠ 0 := by
-    have : ws.length ≠ 0 := by simpa using hne
+    have : ws.length ≠ 0 := by omega
     exact_mod_cast this
-  refine ⟨?_, rfl⟩
+  have hn1 : (ws.length : K) - 1 ≠ 0 := by
+    have h1 : (1 : K) < (ws.length : K) := by exact_mod_cast (by omega : 1 < ws.length)
+    exact sub_ne_zero.mpr (ne_of_gt h1)
+  refine ⟨?_, mul_ne_zero hn hn1, rfl⟩
   unfold errSq
   simp only []
   rw [sumK_dev]
@@ -446,12 +529,15 @@ theorem Z_err_def (ws : List K) (hne : ws ≠ []) :
   ring
 
 omit [LinearOrder K] [IsStrictOrderedRing K] in
-/-- the evidence-ratio criteria compare ratios of MEAN weights: `exp(ratio) = mean(w above threshold) /
-mean(w)` and `exp(ratio_ns) = mean(w live) / mean(w nested)` -/
+/-- the evidence estimate is the arithmetic mean of the weights and the evidence-ratio criteria compare ratios
+of MEAN weights, stated with the library sum `List.sum` (not the model's own fold): `exp(ratio) =
+mean(w above threshold) / mean(w all)` — the numerator is averaged over the samples above only — and
+`exp(ratio_ns) = mean(w live) / mean(w nested)` -/
 theorem ratio_def (above all live nested : List K) :
-    ratioLin above all = (sumK above / (above.length : K)) / (sumK all / (all.length : K)) ∧
-    ratioNsLin live nested = (sumK live / (live.length : K)) / (sumK nested / (nested.length : K)) :=
-  ⟨rfl, rfl⟩
+    evidence all = all.sum / (all.length : K) ∧
+    ratioLin above all = (above.sum / (above.length : K)) / (all.sum / (all.length : K)) ∧
+    ratioNsLin live nested = (live.sum / (live.length : K)) / (nested.sum / (nested.length : K)) := by
+  simp [ratioLin, ratioNsLin, evidence, sumK_eq_sum]
 
 end crit
 
@@ -484,53 +570,99 @@ theorem Z_err_log (ws : List ℝ) (hZ : 0 < evidence ws) :
   rw [Real.sqrt_div' _ (mul_self_nonneg _), Real.sqrt_mul_self hZ.le]
   exact abs_of_nonneg (div_nonneg (Real.sqrt_nonneg _) hZ.le)
 
-/-! ### non-vacuity -/
+/-! ### non-vacuity: every theorem with hypotheses is APPLIED to a concrete state -/
 
 /-- the scripted bodies used by the driver satisfy the body hypotheses -/
-example : StdBodyOk (stdScriptBody (K := Ext)) := by intro s; simp [stdScriptBody]
-example : InsBodyOk (insScriptBody (K := Ext)) := by intro s; simp [insScriptBody]
+theorem stdScriptBody_ok : StdBodyOk (stdScriptBody (K := Ext)) := by intro s; simp [stdScriptBody]
+/-- likewise for the scripted importance-sampler iteration -/
+theorem insScriptBody_ok : InsBodyOk (insScriptBody (K := Ext)) := by intro s; simp [insScriptBody]
 
-/-- the order theorems apply verbatim to the executable instantiation run by the driver
-(`K = Ext` = ℚ ∪ {±∞} with the order of `Model/Loops.lean`, scripted bodies) -/
-example (s : Std Ext) (fuel k : Nat) (s' : Std Ext) :=
-  standard_stops_first stdScriptBody (by intro s; simp [stdScriptBody]) s fuel k s'
-example (s : Ins Ext) (fuel k : Nat) (s' : Ins Ext) :=
-  ins_stops_first insScriptBody (by intro s; simp [insScriptBody]) s fuel k s'
+/-- a fresh standard sampler: conditions ∞, 5, 1/2, 1/20 against tolerance 1/10, three live points -/
+def demoStd (cap : Cap) : Std Ext := {
+  finalised := false, iteration := 0, condition := .pinf, tolerance := .fin (1/10),
+  maxIteration := cap, nlive := 3, live := some [1, 2, 3], nested := [], incs := [], bodies := 0,
+  traj := [.fin 5, .fin (1/2), .fin (1/20), .fin 0] }
 
-/-- a concrete standard run: conditions ∞, 5, 1/2, 1/20 with tolerance 1/10 stop after exactly 3 iterations,
-finalise consumes the three remaining live points with counts 3, 2, 1 -/
+/-- a fresh importance sampler: two criteria combined by `all`, minimum 2, cap 9 -/
+def demoIns : Ins Ext := {
+  finalised := false, iteration := 0, criterion := [.pinf, .pinf],
+  tolerance := [.fin 0, .fin (1/100)], stopAny := false, minIteration := 2, maxIteration := .fin 9,
+  live := some [7, 8], nested := [1], bodies := 0,
+  traj := [[.fin (-1), .fin 1], [.fin 1, .fin 0], [.fin (-1), .fin (1/100)], [.fin (-5), .fin 0]] }
+
+/-- the concrete standard run stops after exactly 3 iterations; finalise consumes the three remaining live
+points with counts 3, 2, 1 -/
 example :
-    let r := stdRun stdScriptBody 10 ({
-      finalised := false, iteration := 0, condition := .pinf, tolerance := .fin (1/10),
-      maxIteration := .inf, nlive := 3, live := some [1, 2, 3], nested := [], incs := [], bodies := 0,
-      traj := [.fin 5, .fin (1/2), .fin (1/20), .fin 0] } : Std Ext)
+    let r := stdRun stdScriptBody 10 (demoStd .inf)
     r.map (fun r => (r.1, r.2.finalised, r.2.live)) = some (3, true, none) ∧
       r.map (fun r => r.2.nested) = some [1, 2, 3, 1000, 1001, 1002] ∧
       r.map (fun r => r.2.incs) = some [(1000, 3), (1001, 2), (1002, 1)] := by
   decide +kernel
 
-/-- a concrete importance run with two criteria combined by `all`, minimum 2: stops after 3 iterations -/
-example :
-    (insRun insScriptBody 10 ({
-      finalised := false, iteration := 0, criterion := [.pinf, .pinf],
-      tolerance := [.fin 0, .fin (1/100)], stopAny := false, minIteration := 2, maxIteration := .fin 9,
-      live := some [7, 8], nested := [1], bodies := 0,
-      traj := [[.fin (-1), .fin 1], [.fin 1, .fin 0], [.fin (-1), .fin (1/100)], [.fin (-5), .fin 0]] } : Ins Ext)).map
-        (fun r => (r.1, r.2.finalised, r.2.nested, r.2.live)) = some (3, true, [1, 7, 8], none) := by
+/-- the same sampler with `max_iteration = 2` stops after 2 iterations, not finalised -/
+example : (stdRun stdScriptBody 10 (demoStd (.fin 2))).map (fun r => (r.1, r.2.finalised)) = some (2, false) := by
   decide +kernel
 
-/-- hypotheses of the configuration and criteria theorems are satisfiable -/
-example : "no_such_criterion" ∉ allAliases aliasTable := by decide +kernel
-example : sumK [(1 : Rat), 2, 3] ≠ 0 := by decide +kernel
-example : (0 : ℝ) < evidence [(1 : ℝ), 2, 3] := by norm_num [evidence, sumK]
-example : errSq [(1 : Rat), 2, 3] = 1 / 3 ∧ relErrSq [(1 : Rat), 2, 3] = 1 / 12 := by
-  constructor <;> decide +kernel
+/-- the concrete importance run stops after 3 iterations -/
+example : (insRun insScriptBody 10 demoIns).map (fun r => (r.1, r.2.finalised, r.2.nested, r.2.live)) =
+    some (3, true, [1, 7, 8], none) := by
+  decide +kernel
 
-example : essCode [(1 : Rat), 2, 3] = 18 / 7 ∧ essKish [(1 : Rat), 2, 3] = 18 / 7 := by
-  constructor <;> decide +kernel
+-- standard sampler
+example := std_iter_inv stdScriptBody_ok (demoStd .inf) 2
+example := std_stopAt_iff stdScriptBody_ok (demoStd .inf) 3
+example (fuel k : Nat) (s' : Std Ext) := standard_stops_first stdScriptBody stdScriptBody_ok (demoStd .inf) fuel k s'
+example : ∃ k s', runLoop stdWhile stdTop stdBot stdScriptBody 10 (demoStd .inf) 0 = some (k, s') :=
+  standard_terminates stdScriptBody stdScriptBody_ok (demoStd .inf) 10 ⟨3, by decide, Or.inl (by decide +kernel)⟩
+example := standard_cap_checked_after_body stdScriptBody stdScriptBody_ok
+  ({ demoStd (.fin 0) with condition := .fin 5 }) 0 rfl (by decide) (by decide +kernel)
+example (s' : Std Ext) (h : stdRun stdScriptBody 10 (demoStd .inf) = some (3, s')) : s'.finalised = true :=
+  (finalise_iff stdScriptBody stdScriptBody_ok (demoStd .inf) 10 3 s' rfl rfl h).1.mpr (by decide +kernel)
+example := finalise_consumes_once (demoStd .inf) [1, 2, 3] rfl rfl
+example := finalised_entry_returns_stored stdScriptBody 7 ({ demoStd .inf with finalised := true }) rfl
+example (s' : Std Ext) (h : stdRun stdScriptBody 10 (demoStd .inf) = some (3, s')) :
+    stdRun stdScriptBody 5 s' = some (0, s') :=
+  rerun_idempotent stdScriptBody stdScriptBody stdScriptBody_ok (demoStd .inf) s' 10 5 3 rfl rfl h (by decide +kernel)
+example (s' : Std Ext) (h : stdRun stdScriptBody 10 (demoStd (.fin 2)) = some (2, s')) :=
+  rerun_after_cap_iterates stdScriptBody stdScriptBody stdScriptBody_ok stdScriptBody_ok (demoStd (.fin 2)) s' 10 5 2
+    rfl rfl h (by decide +kernel) (by decide)
 
-example : ∀ x ∈ ["fractional_error", "log_evidence", "ratio_all"], x ∈ allAliases aliasTable := by decide +kernel
+-- importance sampler
+example := reached_any_all demoIns
+/-- the direction of the comparison matters and is the specified one: value 1 against tolerance 2 is met,
+value 2 against tolerance 1 is not -/
+example : reached ({ demoIns with criterion := [.fin 1], tolerance := [.fin 2] }) = true ∧
+    reached ({ demoIns with criterion := [.fin 2], tolerance := [.fin 1] }) = false := by decide +kernel
+example := ins_iter_inv insScriptBody_ok demoIns 2
+example := ins_stopAt_iff insScriptBody_ok demoIns 3
+example (fuel k : Nat) (s' : Ins Ext) := ins_stops_first insScriptBody insScriptBody_ok demoIns fuel k s'
+example : ∃ k s', runLoop insWhile insTop insBot insScriptBody 10 demoIns 0 = some (k, s') :=
+  ins_terminates insScriptBody insScriptBody_ok demoIns 10
+    ⟨3, by decide, Or.inl ⟨(reached_any_all (iter insScriptBody 3 demoIns)).mp (by decide +kernel), by decide⟩⟩
+example := ins_default_iterations insScriptBody
+  ({ demoIns with minIteration := cfgMinIteration none, maxIteration := cfgMaxIteration none }) 3 rfl rfl (by decide)
+example (s' : Ins Ext) (h : insRun insScriptBody 10 demoIns = some (3, s')) :=
+  ins_finalise_consumes_once insScriptBody insScriptBody_ok demoIns 10 3 s' rfl h
+example (s' : Ins Ext) (h : insRun insScriptBody 10 demoIns = some (3, s')) :=
+  ins_rerun_idempotent insScriptBody insScriptBody 10 5 3 demoIns s' insScriptBody_ok rfl h
+
+-- configuration
+example := resolved_in_user_order ["fractional_error", "log_evidence", "ratio_all"] (by decide +kernel)
+example := unknown_rejected "no_such_criterion" (by decide +kernel) 1 "any"
+example := (configure_errors ["no_such_criterion", "Ratio"] 2 "any").1 (by decide +kernel)
+example := (configure_errors ["ess", "ratio"] 3 "any").2.1 (by decide +kernel) (by decide +kernel)
 example : (configureStopping ["log_evidence", "ratio_all"] 2 "all").toOption = some (["log_dZ", "ratio"], false) := by
   decide +kernel
+
+-- criteria
+example : essCode [(1 : Rat), 2, 3] = essKish [(1 : Rat), 2, 3] := ess_def [(1 : Rat), 2, 3] (by norm_num [sumK])
+example := Z_err_def [(1 : Rat), 2, 3] (by decide)
+example := ratio_def [(2 : Rat), 3] [1, 2, 3] [3] [1, 2]
+example := ratio_log [2, 3] [1, 2, 3] (by norm_num [evidence, sumK]) (by norm_num [evidence, sumK])
+example := log_dZ_def 2 3 1 (by norm_num) (by norm_num)
+example := Z_err_log [1, 2, 3] (by norm_num [evidence, sumK])
+example : essCode [(1 : Rat), 2, 3] = 18 / 7 ∧ essKish [(1 : Rat), 2, 3] = 18 / 7 ∧
+    errSq [(1 : Rat), 2, 3] = 1 / 3 ∧ relErrSq [(1 : Rat), 2, 3] = 1 / 12 := by
+  refine ⟨?_, ?_, ?_, ?_⟩ <;> decide +kernel
 
 end NessaiVerif.C15
